@@ -54,3 +54,21 @@ func descEq(a, b *plenccodec.Descriptor) bool {
 	}
 	return true
 }
+
+// ---- (a) symbolic definitions: names come from the json tag ----
+
+// refJSONName: the descriptor name is the json tag's text before the first
+// comma when that is non-empty, otherwise the Go field name.
+func refJSONName(tag, goName string) string {
+	n := len(tag)
+	for i := 0; i < len(tag); i++ {
+		if tag[i] == ',' {
+			n = i
+			break
+		}
+	}
+	if n == 0 {
+		return goName
+	}
+	return tag[:n]
+}
